@@ -46,6 +46,16 @@ def check_node(node):
     ds, env = progcheck.build_checked(node)
     observe.check_iter(ds, m, node['op'])
     observe.check_repr(ds, node['op'])
+    if m.indexable and m.sized and not m.has_raise and not m.int_taint and not m.unordered:
+        # "iteration never consumes or alters a dataset" - also not after the dataset was used out of order
+        # (back to front by index, which fills lazy caches in a non-sequential order)
+        for i in range(m.n - 1, -1, -1):
+            try:
+                ds[i]
+            except Exception:
+                break
+        got, exc, exhausted = observe.take(lambda: ds, m.n + 3)
+        observe.check_stream(got, exc, exhausted, m, node['op'], 'iter-after-random-access')
     return m
 
 
